@@ -551,18 +551,25 @@ Definition hide_small (szof : N -> N) (zs : N) : cfg :=
      range_start := 0; range_stop := 0; loc_of := fun _ => None; lmode_in := false;
      is_plt := fun _ => false; libcall := true; no_merge := false |}.
 
-(* the same as a transformation of the call tree: small functions are spliced out, their callees move up.
-   Everything else (-t / time= on the look-ahead list, -F/-N/-D/... in fstack_entry) then works on what is left:
-   get_task_ustack drops the ENTRY and EXIT of a small function before the time filter and fstack_entry see them. *)
-Fixpoint zsplice (szof : N -> N) (ztr : N -> option N) (zs : N) (n : call) : list call :=
+(* the same as a transformation of the call tree, together with the time filter that shares the look-ahead list:
+   get_task_ustack drops the ENTRY and EXIT of a small function before the time filter sees them (the function is
+   neither timed nor a -C / trace target; its callees move up), but its time= and size= still govern everything
+   below it; -F/-N/-D/... in fstack_entry then work on what is left. *)
+Fixpoint zprune (c : cfg) (szof : N -> N) (ztr : N -> option N) (zs thr : N) (n : call) : list call :=
   match n with
   | Call f t0 t1 ks =>
+      let tr := trig_of c f in
+      let th := match q_time tr with Some t => t | None => thr end in
       let zs' := match ztr f with Some z => z | None => zs end in
-      let ks' := flat_map (zsplice szof ztr zs') ks in
-      if (szof f <? zs')%N then ks' else [Call f t0 t1 ks']
+      let ks' := flat_map (zprune c szof ztr zs' th) ks in
+      if (szof f <? zs')%N then ks'
+      else
+        let long := negb (tdelta t1 t0 <? th)%N && (negb (caller_filter c) || q_caller tr) in
+        if long || q_trace tr || negb (match ks' with [] => true | _ => false end)
+        then [Call f t0 t1 ks'] else []
   end.
 Definition select_z (c : cfg) (szof : N -> N) (ztr : N -> option N) (zs : N) (f : list call) : list vev :=
-  select c (flat_map (zsplice szof ztr zs) f).
+  flat_map (vis c false (gdepth c) 0 0) (flat_map (zprune c szof ztr zs (threshold c)) f).
 
 (* ------------------------------------------------------------------ several tasks *)
 (* Every task has its own data file, look-ahead list (get_task_ustack) and filter state; the commands read
